@@ -64,7 +64,25 @@ var pool = []string{
 	"github.com/Azure/Go-SDK", "github.com/azure/go-sdk", "github.com/Azure/go_sdk",
 	"gopkg.in/yaml.v3", "gopkg.in/yaml.v2", "example.com/yaml",
 	"example.com/mod/target/sub", "example.com/mod/other/target", "example.com/target",
+	"github.com/x/a--b", "example.com/foo-_bar", "example.com/bindings/c++", "example.com/a·b", "example.com/٣a", "example.com/a..b", "example.com/x__y", "example.com/a-.b", "example.com/--", "example.com/a+b",
 	target,
+}
+
+// random segments over letters of all classes, digits and separators (runs of separators, odd symbols, non-ASCII digits)
+var segAlphabet = []string{"a", "b", "Z", "1", "-", "-", "_", ".", "~", "+", "·", "٣", "é", "世"}
+
+func randSegPath(r *rand.Rand) string {
+	seg := core.RandString(r, segAlphabet, 1+r.Intn(5))
+	if seg == "." || seg == ".." {
+		seg = "a" + seg
+	}
+	switch r.Intn(3) {
+	case 0:
+		return seg
+	case 1:
+		return "example.com/r/" + seg
+	}
+	return "example.com/" + core.RandString(r, segAlphabet, 1+r.Intn(3)) + "x/" + seg
 }
 
 var keywordish = map[string]bool{"go": true, "type": true, "func": true, "range": true, "default": true, "select": true, "2fa": true, "9": true, "_x": true, "-": true, "_": true}
@@ -84,7 +102,7 @@ func hasClash(paths []string) bool {
 	seen := map[string]bool{}
 	for _, p := range paths {
 		l := lastSeg(p)
-		if keywordish[l] {
+		if keywordish[l] || !token.IsIdentifier(norm(l)) {
 			return true
 		}
 		n := norm(l)
@@ -163,6 +181,19 @@ func genScenario(r *rand.Rand) scenario {
 	if len(paths) > n {
 		paths = paths[:n]
 	}
+	for k := 0; k < 2; k++ {
+		rp := randSegPath(r)
+		dup := false
+		for _, p := range paths {
+			if p == rp {
+				dup = true
+			}
+		}
+		if !dup {
+			paths = append(paths, rp)
+		}
+	}
+	r.Shuffle(len(paths), func(i, j int) { paths[i], paths[j] = paths[j], paths[i] })
 	sc := scenario{Paths: paths}
 	// references: walk the paths in order (first reference registers), then random repeats
 	nrefs := len(paths) + r.Intn(2*len(paths))
